@@ -53,6 +53,7 @@ CHECKS = {
             R("./pac", "^TestC14(Entry|List)", {"checks": 3000, "timeout": 600}, {"checks": 50000, "shards": 2, "timeout": 2400}),
             R("./pac", "^TestC14Net$", {"checks": 40, "timeout": 300}, {"checks": 400, "shards": 4, "timeout": 1200}),
             R("./pac", "^TestC14Idle$", {"checks": 2, "timeout": 300}, {"checks": 12, "shards": 4, "timeout": 1200}),
+            R("./pac", "^TestC14ColdStart$", {"checks": 40, "timeout": 300}, {"checks": 600, "shards": 4, "timeout": 1200}),
         ],
     },
     "C03": {
